@@ -276,6 +276,53 @@ def z_crop_axes(ctx, rng):
                     break
 
 
+def z_crop_chains(ctx, rng):
+    """crops of crops along z: once a crop starts between whole milliseconds the file carries its start and interval in the
+    double-precision fields, and every later crop must keep them right - also when an intermediate start is exactly 0.0 ms"""
+    from fractions import Fraction
+    from .. import synth
+    n2 = 404
+    for ci in range(ctx.n(4, 40)):
+        if ci % 2 == 0:
+            # first crop starts between whole milliseconds (the file switches to its double-precision fields), the second
+            # lands on exactly 0.0 ms, the third on a whole millisecond again
+            dt = int([125, 375, 625, 875][(ci // 2) % 4])
+            k1, k2, k3 = 4, 4 + 8 * int(rng.integers(0, 4)), 8 * int(rng.integers(1, 4))
+            start = -Fraction((k1 + k2) * dt, 1000)
+        else:
+            dt = int([125, 250, 500, 333, 4350, 2500][ci % 6])
+            k1, k2, k3 = (4 * int(rng.integers(1, 6)) for _ in range(3))
+            start = Fraction(int(rng.integers(-50, 50)))
+        if start.denominator != 1:
+            continue        # (the source's start is an integer number of milliseconds in the 32-bit field)
+        src = ctx.path('zch0.sgz')
+        synth.make(src, (3, 3, n2), (64, 64, 4), 8, rng, z=(int(start), dt), il=(5, 1), xl=(9, 2), n_arrays=2)
+        cur, off = src, 0
+        for step, k in enumerate((k1, k2, k3)):
+            out = ctx.path(f'zch{step + 1}.sgz')
+            if os.path.exists(out):
+                os.unlink(out)
+            off += k
+            desc = {'source_start_ms': int(start), 'interval_us': dt, 'chain_of_z_crops': [k1, k2, k3][:step + 1]}
+            ctx.case(('zchain', int(start), dt, k1, k2, k3, step), sample=desc if ci < 2 and step == 2 else None)
+            ctx.stats['z_crop_chain_steps'] += 1
+            try:
+                with SgzCropper(cur) as cr:
+                    m = len(cr.zslices)
+                    env.quiet(cr.write_cropped_file_by_indexes, out, None, None, (k, m))
+                with SgzReader(out) as r:
+                    got = np.asarray(r.zslices, dtype=np.float64)
+            except Exception as e:  # noqa
+                ctx.fail(f'z-crop chain failed at step {step + 1}: {type(e).__name__}: {str(e)[:100]}', desc)
+                break
+            want = np.array([float(start + Fraction((off + j) * dt, 1000)) for j in range(n2 - off)])
+            if got.shape != want.shape or np.abs(got - want).max() > 1e-6:
+                ctx.fail(f'sample axis after {step + 1} successive z-crops: starts {got[:2].tolist()} (len {len(got)}), the source '
+                         f'restricted starts {want[:2].tolist()} (len {len(want)})', desc)
+                break
+            cur = out
+
+
 def z_crop_export(ctx, rng):
     """SEG-Y -> SGZ (every header-detection mode) -> crop along z from a later sample -> SEG-Y: segyio must see the sample
     axis of the source restricted to the crop (the start time is regenerated from the cropped file, whatever the footer holds)"""
@@ -323,6 +370,7 @@ def run_(ctx):
     interval_sweep(ctx, rng)
     z_crop_axes(ctx, gen.rng_for(ctx.seed, 'c05-zcrop'))
     z_crop_export(ctx, gen.rng_for(ctx.seed, 'c05-zcrop-export'))
+    z_crop_chains(ctx, gen.rng_for(ctx.seed, 'c05-zcrop-chains'))
 
 
 def replay(ctx, rp):
